@@ -34,6 +34,8 @@ TransportFails ==
     \* quantities were multiplied by 2^qscale and are logged in that unit; a plan that is not a whole number of units cannot
     \* be judged with 32-bit integers: no verdict (none of the solver's plans is like that)
     (IF Ev.capKept THEN {} ELSE {F("C13", <<"the capacity normalisation changed capacities that already sufficed">>, "t-capacity-inflated")}) \cup
+    (IF Ev.capExcess /\ ~Ev.capShort THEN {F("C13", <<"the capacity normalisation did not bring the total capacity to exactly the total demand">>, "t-capacity-total")} ELSE {}) \cup
+    IF Ev.capShort THEN {F("C13", <<"the capacity normalisation left the total capacity short of the total demand">>, "t-capacity-short")} ELSE
     IF ~Ev.units THEN {F("note", <<"plan not in whole units of 2^qscale", Ev.qscale>>, "t-not-in-units")} ELSE
     (IF TFeasible(cap, dem, a) THEN {} ELSE {F("C13", <<"plan infeasible">>, "t-feasible")}) \cup
     (IF TFeasible(cap, dem, a) /\ ~CertOKSplit(cap, dem, cost, a, Ev.poth, Ev.potl) THEN {F("C13", <<"plan not of minimum cost">>, "t-optimal")} ELSE {}) \cup
